@@ -111,11 +111,11 @@ def run (m : Meth) (b : Bytes) (p : PB) : Res Out × PB :=
     | .panic s => (.panic s, p)
   | .setCursorU k =>                           -- assert!(ofs <= self.end - self.start) [C17-02]
     match size p with
-    | .ok sz => if k ≤ sz then (.ok .unit, { p with ofs := p.start + k }) else (.panic "set_cursor_unsafe: assert", p)
+    | .ok sz => if k ≤ sz then (.ok .unit, { p with ofs := p.start + k }) else (.panic "assert", p)
     | .err e => (.err e, p)
     | .panic s => (.panic s, p)
-  | .incrU => if p.ofs < p.stop then (.ok .unit, { p with ofs := p.ofs + 1 }) else (.panic "incr_cursor_unsafe: assert", p)
-  | .decrU => if p.ofs > p.start then (.ok .unit, { p with ofs := p.ofs - 1 }) else (.panic "decr_cursor_unsafe: assert", p)
+  | .incrU => if p.ofs < p.stop then (.ok .unit, { p with ofs := p.ofs + 1 }) else (.panic "assert", p)
+  | .decrU => if p.ofs > p.start then (.ok .unit, { p with ofs := p.ofs - 1 }) else (.panic "assert", p)
   | .checkPrefix t =>
     match slice b p.ofs p.stop with
     | .ok sl => (.ok (.bool (t.isPrefixOf sl)), p)
@@ -185,17 +185,16 @@ def run (m : Meth) (b : Bytes) (p : PB) : Res Out × PB :=
         | .err e => (.err e, p)
         | .panic s => (.panic s, p)
 
-/-- `ParseBuffer::new_view(buf, start, size)` -/
+/-- `ParseBuffer::new_view(buf, start, size)`: `assert!(start + size <= buf.size())`.  Both callers
+    have established `start + size ≤ buf.size()` before (so the sum is bounded by a field). -/
 def newView (p : PB) (s n : Nat) : Res PB :=
-  match uadd s n "new_view: add with overflow", size p with
-  | .ok sn, .ok sz =>
-    if sn ≤ sz then
+  match size p with
+  | .ok sz =>
+    if s + n ≤ sz then
       .ok { store := p.store, start := p.start + s, ofs := p.start + s, stop := p.start + s + n }
     else .panic "new_view: assert"
-  | .panic st, _ => .panic st
-  | _, .panic st => .panic st
-  | .err e, _ => .err e
-  | _, .err e => .err e
+  | .panic st => .panic st
+  | .err e => .err e
 
 /-- `RestrictView::transform`: `if self.size <= buf.size() && self.start <= buf.size() - self.size` [C17-02] -/
 def restrictView (p : PB) (s n : Nat) : Res PB :=
@@ -337,7 +336,7 @@ def checkCursorOrig (p : PB) (k : Nat) : Res Out × PB :=
 /-- `set_cursor_unsafe` as it was: `assert!(self.start + ofs <= self.end)` -/
 def setCursorUOrig (p : PB) (k : Nat) : Res Out × PB :=
   match uadd p.start k "set_cursor_unsafe: add with overflow" with
-  | .ok a => if a ≤ p.stop then (.ok .unit, { p with ofs := a }) else (.panic "set_cursor_unsafe: assert", p)
+  | .ok a => if a ≤ p.stop then (.ok .unit, { p with ofs := a }) else (.panic "assert", p)
   | .err e => (.err e, p)
   | .panic s => (.panic s, p)
 
